@@ -47,7 +47,7 @@ let rederr_a args =
   let marker = [Util.z_of_int 82] in
   let e = match a.(11) with
     | "nil" -> UENil
-    | "url" | "urlreal" -> UEUrl ([], [Util.z_of_int 79])   (* urlreal: the error carries the URL's own text *)
+    | "url" | "urlreal" | "urlother" | "urlother2" -> UEUrl ([], [Util.z_of_int 79])   (* urlreal: the error carries the URL's own text *)
     | _ -> UEOther in
   (match redact_err (fun _ -> marker) u e with
    | UEUrl (_, t) -> if t = marker then "R" else "O"
